@@ -88,7 +88,7 @@ func (f filetype) SmellsLike(name string, data []byte, fileSize int64) bool {
 		return false
 	}
 	// the sniffers judge the content as a whole ("exactly one UUID", "exactly one DER element", …): when only the
-	// first MaxReadSize bytes of a longer regular file were read, they have not seen the whole
+	// first MaxReadSize bytes of a longer input were kept, they have not seen the whole
 	if fileSize > int64(len(data)) {
 		return false
 	}
